@@ -3,9 +3,10 @@
 use crate::engine::Prop;
 
 pub mod c05;
+pub mod c06;
 pub mod c12;
 pub mod c16;
 
 pub fn all() -> Vec<Prop> {
-    vec![c05::prop(), c12::prop(), c16::prop()]
+    vec![c05::prop(), c06::prop(), c12::prop(), c16::prop()]
 }
